@@ -880,6 +880,27 @@ def arith_kind(F, res):
     res.floor("arithmetic impls with a result kind", n, 4)
 
 
+def g_skip(F, res):
+    """G-SKIP: a lexical condition of the grammar.  pest skips WHITESPACE / COMMENT between the elements of every sequence and
+    between the iterations of every repetition of a rule that does not run atomically.  If what follows such a skip can itself
+    begin with a blank (the body of a string literal, say), the skip wins and the leading blanks and comment-like text of the
+    literal never reach the value the template denotes.  Decided on the grammar's AST: atomicity propagated from the roots, then
+    a first-character computation (negative lookaheads honoured) for everything that follows an implicit skip."""
+    hits, na = e2.skip_ambiguities(F.grammar)
+    res.count("grammar rules that run with implicit skipping", len(na))
+    res.floor("grammar rules that run with implicit skipping", len(na), 60)
+    w = "crates/tx3-lang/src/tx3.pest"
+    seen = set()
+    for rule, what in hits:
+        key = "tx3.pest|%s|implicit skip in front of blank-capable text" % rule
+        if key in seen:
+            continue
+        seen.add(key)
+        res.add([finding("G-SKIP", key, w, what + ": leading blanks and comment-like text there are skipped instead of being captured, so the compiled value differs from the literal the template author wrote")])
+    if not hits:
+        res.add([ok("G-SKIP", "tx3.pest|no implicit skip in front of blank-capable text", w, "%d rules run with implicit skipping; nothing that follows a skip can begin with a blank" % len(na))])
+
+
 def run(ctx_):
     F = ctx_.F
     res = Result("C01")
@@ -917,4 +938,6 @@ def run(ctx_):
     c02.optional_rule(F, res)
     res.rule("KIND", "number and asset arithmetic keep their kind (never yield the absent operand None)")
     arith_kind(F, res)
+    res.rule("G-SKIP", "the grammar's implicit whitespace / comment skipping never runs in front of something that can itself begin with a blank: what a literal contains is what the template author wrote")
+    g_skip(F, res)
     return res
